@@ -135,7 +135,11 @@ func liveSession(raw *rawpeer.Server, timeout time.Duration) *rawpeer.Session {
 }
 
 func clientCanary(raw *rawpeer.Server, n int) error {
-	deadline := time.Now().Add(30 * time.Second)
+	return clientCanaryWithin(raw, n, 30*time.Second)
+}
+
+func clientCanaryWithin(raw *rawpeer.Server, n int, budget time.Duration) error {
+	deadline := time.Now().Add(budget)
 	var last error
 	for time.Now().Before(deadline) {
 		sess := liveSession(raw, 10*time.Second)
@@ -183,6 +187,7 @@ func clientMirror(run *vk.Run, seqs [][][]byte) {
 		}
 		run.Eval(1)
 		run.Count("client_mirror_sequences", 1)
+
 		os.WriteFile(filepath.Join(vk.Root, ".work", fmt.Sprintf("c10-%d", os.Getpid()), "last-client-input.txt"), []byte(showFrames(frames)), 0o644)
 		sess := liveSession(raw, 20*time.Second)
 		died := false
@@ -204,7 +209,13 @@ func clientMirror(run *vk.Run, seqs [][][]byte) {
 			if q.waitingAfter && sess != nil {
 				sess.Drop() // otherwise the canary would be swallowed as an attachment
 			}
-			if err := clientCanary(raw, i+1); err != nil {
+			// a sequence that legitimately ends the client socket (DISCONNECT / CONNECT_ERROR for "/") cannot be
+			// followed by a canary round trip: do not spend the full budget waiting for one
+			budget := 30 * time.Second
+			if endsClientSocket(frames) {
+				budget = 2 * time.Second
+			}
+			if err := clientCanaryWithin(raw, i+1, budget); err != nil {
 				if !ch.alive() {
 					died = true
 				} else if endsClientSocket(frames) {
